@@ -272,7 +272,8 @@ def c19_check_chunk(args):
 def c19_check_reject(args):
     d, i, (lit, why) = args
     src = os.path.join(d, f"neg{i}.rs")
-    open(src, "w").write(f"use ruint::uint; fn main() {{ let x = uint!({lit}); println!(\"{{:?}}\", x.as_limbs()); }}")
+    # type-agnostic on purpose: a literal that the macro wrongly passes through as a plain integer must still compile here
+    open(src, "w").write(f"#![allow(overflowing_literals)] use ruint::uint; fn show<T: std::fmt::Debug>(x: T) {{ println!(\"{{}} = {{:?}}\", std::any::type_name::<T>(), x); }} fn main() {{ show(uint!({lit})); }}")
     rc, err = rustc(src, src[:-3])
     res = None
     if rc == 0:
